@@ -150,12 +150,13 @@ Record pool := mkPool {
   p_cancelled : list nat;    (* calls whose context is cancelled *)
   p_started : list nat;      (* every call whose work function ever started *)
   p_done : list nat;         (* calls whose work function finished *)
-  p_retired : nat            (* busy workers that were removed and exit when they finish *)
+  p_retired : list nat       (* how many of the running calls may be on removed-but-busy workers: which
+                                worker took which call is not observable, so the LTS keeps every possibility *)
 }.
 Definition mem (k : nat) (l : list nat) : bool := existsb (Nat.eqb k) l.
 Definition del (k : nat) (l : list nat) : list nat := filter (fun x => negb (Nat.eqb x k)) l.
-(* workers able to take work: the target, plus removed-but-busy ones still running *)
-Definition capacity (p : pool) : nat := (p_target p + p_retired p)%nat.
+Fixpoint nat_dedup (l : list nat) : list nat :=
+  match l with [] => [] | x :: r => if mem x r then nat_dedup r else x :: nat_dedup r end.
 
 (* one event is accepted iff the pool may perform it; None = not accepted *)
 Definition pstep (p : pool) (e : pev) : option pool :=
@@ -164,16 +165,20 @@ Definition pstep (p : pool) (e : pev) : option pool :=
     if mem k (p_waiting p) || mem k (p_started p) then None
     else Some (mkPool (p_target p) (p_running p) (k :: p_waiting p) (p_cancelled p) (p_started p) (p_done p) (p_retired p))
   | PStart k =>
-    (* rendezvous with an idle worker: only if fewer than capacity are running, the call is waiting,
-       it never ran before *)
-    if mem k (p_waiting p) && negb (mem k (p_started p)) && Nat.ltb (List.length (p_running p)) (capacity p)
-    then Some (mkPool (p_target p) (k :: p_running p) (p_waiting p) (p_cancelled p) (k :: p_started p) (p_done p) (p_retired p))
+    (* rendezvous with an idle live worker: fewer than target + retired are running, the call is waiting
+       and never ran before *)
+    let n := List.length (p_running p) in
+    let ok := filter (fun r => Nat.ltb n (p_target p + r)) (p_retired p) in
+    if mem k (p_waiting p) && negb (mem k (p_started p)) && negb (match ok with [] => true | _ => false end)
+    then Some (mkPool (p_target p) (k :: p_running p) (p_waiting p) (p_cancelled p) (k :: p_started p) (p_done p) ok)
     else None
   | PFinish k =>
     if mem k (p_running p)
-    then Some (mkPool (p_target p) (del k (p_running p)) (p_waiting p) (p_cancelled p) (p_started p) (k :: p_done p)
-                      (* a retired worker leaves when it finishes *)
-                      (if Nat.ltb (p_target p) (List.length (p_running p)) then Nat.pred (p_retired p) else p_retired p))
+    then let run' := del k (p_running p) in
+         (* the finished call was on a live worker (r stays) or on a retired one (r - 1) *)
+         let rs := nat_dedup (flat_map (fun r => match r with O => [O] | S r' => [r; r'] end) (p_retired p)) in
+         Some (mkPool (p_target p) run' (p_waiting p) (p_cancelled p) (p_started p) (k :: p_done p)
+                      (filter (fun r => Nat.leb r (List.length run')) rs))
     else None
   | PReturnOk k =>
     (* Dispatch returns a channel only for an accepted call *)
@@ -188,13 +193,14 @@ Definition pstep (p : pool) (e : pev) : option pool :=
   | PCancel k => Some (mkPool (p_target p) (p_running p) (p_waiting p) (k :: p_cancelled p) (p_started p) (p_done p) (p_retired p))
   | PAdd d => Some (mkPool (p_target p + d)%nat (p_running p) (p_waiting p) (p_cancelled p) (p_started p) (p_done p) (p_retired p))
   | PRemove d =>
-    let t' := (p_target p - d)%nat in
-    (* workers beyond the new target that are busy keep running until they finish *)
-    let busy_over := (List.length (p_running p) - t')%nat in
-    Some (mkPool t' (p_running p) (p_waiting p) (p_cancelled p) (p_started p) (p_done p)
-                 (Nat.max (p_retired p) (Nat.min busy_over (List.length (p_running p)))))
+    let d := Nat.min d (p_target p) in
+    let n := List.length (p_running p) in
+    (* idle live workers go first; the rest of the removal retires busy live workers *)
+    let rs := nat_dedup (map (fun r => let idle := (p_target p - (n - r))%nat in (r + (d - idle))%nat) (p_retired p)) in
+    Some (mkPool (p_target p - d)%nat (p_running p) (p_waiting p) (p_cancelled p) (p_started p) (p_done p)
+                 (filter (fun r => Nat.leb r n) rs))
   end.
-Definition pool_init : pool := mkPool 0 [] [] [] [] [] 0.
+Definition pool_init : pool := mkPool 0 [] [] [] [] [] [0%nat].
 Fixpoint paccept (p : pool) (tr : list pev) (i : nat) : option nat :=
   match tr with
   | [] => None
